@@ -3,7 +3,7 @@ import math
 
 from hypothesis import strategies as st
 
-from pbt import netgen, oracles
+from pbt import netgen, oracles, qcal
 from pbt.core import Result, pf_tol, silence, pf_outcome
 
 ID = "C04"
@@ -37,7 +37,10 @@ def _case(draw, tier):
                "calculate_voltage_angles": draw(st.sampled_from([True, True, False])),
                "numba": draw(st.sampled_from([True, True, False])),
                "lightsim2grid": draw(st.sampled_from([False, "auto"]))}
-    return {"recipe": recipe, "opt": opt}
+    case = {"recipe": recipe, "opt": opt}
+    if opt.get("enforce_q_lims") and draw(st.integers(0, 1)):
+        case["qcal"] = draw(st.lists(st.sampled_from(qcal.FACTORS), min_size=4, max_size=4))
+    return case
 
 
 def strategy(tier):
@@ -56,6 +59,12 @@ def check(case):
     dc = opt["mode"] == "dc"
     sn = recipe.get("sn_mva", 1.0)
     res.label("mode:" + opt["mode"])
+    cal = None
+    if case.get("qcal") and not dc:
+        def run_free(n):
+            with silence():
+                pp.runpp(n, tolerance_mva=pf_tol(sn), max_iteration=40, **dict({k: v for k, v in opt.items() if k != "mode"}, enforce_q_lims=False))
+        cal = qcal.apply(net, case["qcal"], run_free)
     try:
         with silence():
             if dc:
@@ -71,6 +80,10 @@ def check(case):
             res.fail(what, error=repr(e)[:300])
         return res
     ptol = 1e-5 * max(1.0, sn / 100.0)
+    if cal:
+        res.label("calibrated-q-limits")
+        if qcal.limited_later(net, cal, 1e-4 * max(1.0, sn / 100.0)):
+            res.label("gen-limited-in-a-later-enforcement-round")
     vm = net.res_bus.vm_pu
     va = net.res_bus.va_degree
     node = oracles.fused_nodes(net)
